@@ -7,6 +7,8 @@ MCSlots3 == {[id |-> "b1", addr |-> 1], [id |-> "b2", addr |-> 2], [id |-> "b3",
 MCSlots2 == {[id |-> "b1", addr |-> 1], [id |-> "b2", addr |-> 2]}
 MCSlotsSame == {[id |-> "b1", addr |-> 1], [id |-> "b3", addr |-> 1]}
 MCSlots1 == {[id |-> "b1", addr |-> 1]}
+\* one backend id at two addresses
+MCSlotsSameId == {[id |-> "b1", addr |-> 1], [id |-> "b1", addr |-> 2]}
 
 Cf(i, t, h, u, e) == [interval |-> i, timeout |-> t, hth |-> h, uth |-> u, expect |-> e]
 \* thresholds 2/2 with a timeout as long as the interval, and 1/1 with a timeout longer than the interval
